@@ -105,7 +105,7 @@ package loadbalancer
 //@ ghost var mirrorAgreedAtEveryRelease Bool
 //@ pred mirrorAgrees(lb *LoadBalancer, b *Backend) := has_bm(lb.metricsCollector, b.Name) && mirrorOf(lb, b) == b.IsHealthy
 //@ func (*LoadBalancer).MarkBackendUnhealthy
-//@   props C02 C04 C12 C03
+//@   props C02 C04 C12 C03 C13
 //@   mode seq, mon
 //@   ghost entry :: mirrorAgreedAtEveryRelease := true
 //@   ghost release Mutex :: mirrorAgreedAtEveryRelease := mirrorAgreedAtEveryRelease && mirrorAgrees(lb, backend)
@@ -119,7 +119,7 @@ package loadbalancer
 //@   modifies backend.IsHealthy, backend.UnhealthyUntil, mapof(lb.metricsCollector.metrics.BackendMetrics), metrics.BackendMetrics.IsHealthy, metrics.BackendMetrics.LastHealthCheck, mirrorAgreedAtEveryRelease
 
 //@ func (*LoadBalancer).IsBackendHealthy
-//@   props C02 C04 C12 C03
+//@   props C02 C04 C12 C03 C13
 //@   mode seq, mon
 //@   ghost entry :: mirrorAgreedAtEveryRelease := true
 //@   ghost release Mutex :: mirrorAgreedAtEveryRelease := mirrorAgreedAtEveryRelease && mirrorAgrees(lb, backend)
@@ -136,7 +136,7 @@ package loadbalancer
 
 // ---- probes
 //@ func (*LoadBalancer).processHealthCheckResponse
-//@   props C04 C12
+//@   props C04 C12 C13
 //@   mode seq, mon
 //@   ghost entry :: mirrorAgreedAtEveryRelease := true
 //@   ghost release Mutex :: mirrorAgreedAtEveryRelease := mirrorAgreedAtEveryRelease && mirrorAgrees(lb, backend)
@@ -151,7 +151,7 @@ package loadbalancer
 //@   modifies backend.IsHealthy, backend.UnhealthyUntil, mapof(lb.metricsCollector.metrics.BackendMetrics), metrics.BackendMetrics.IsHealthy, metrics.BackendMetrics.LastHealthCheck, mirrorAgreedAtEveryRelease
 
 //@ func (*LoadBalancer).handleHealthCheckFailure
-//@   props C04 C12
+//@   props C04 C12 C13
 //@   requires backend != nil && unlocked(backend.Mutex) && lbOK(lb)
 //@   requires unlocked(lb.metricsCollector.metrics.mutex) && bmCellsOK(lb.metricsCollector)
 //@   ensures unreachable_ejects: !backend.IsHealthy && backend.UnhealthyUntil == now() + lb.healthChecks.passiveTimeout
@@ -163,7 +163,7 @@ package loadbalancer
 //@ pred failCount(lb *LoadBalancer, name string) int := has(lb.healthChecks.unhealthyBackends, name) ? lb.healthChecks.unhealthyBackends[name] : 0
 
 //@ func (*LoadBalancer).handlePassiveHealthCheck
-//@   props C04 C12 C03
+//@   props C04 C12 C03 C13
 //@   requires backend != nil && r != nil && unlocked(backend.Mutex) && lbOK(lb) && unlocked(lb.healthChecks.unhealthyBackendMu)
 //@   requires lb.healthChecks.unhealthyBackends != nil && lb.healthChecks.passiveThreshold >= 1
 //@   requires unlocked(lb.metricsCollector.metrics.mutex) && bmCellsOK(lb.metricsCollector)
@@ -485,7 +485,7 @@ package loadbalancer
 //@            metrics.BackendMetrics.FailedRequests, metrics.BackendMetrics.AverageResponseTime, metrics.Metrics.SuccessfulRequests, metrics.Metrics.FailedRequests, metrics.Metrics.avgResponseTimeBits, mirrorAgreedAtEveryRelease
 
 //@ func (*LoadBalancer).proxyRequest
-//@   props C01 C07 C13 C12 C03
+//@   props C01 C07 C13 C12 C03 C20 C02
 //@   may_panic
 //@   requires backend != nil && backend.ReverseProxy != nil && reqOK(lb, r) && lbOK(lb) && idle(lb) && bmCellsOK(lb.metricsCollector) && passiveOK(lb) && below2to63(lb)
 //@   ensures gauge_restored: backend.ActiveConnections == old(backend.ActiveConnections)
@@ -737,7 +737,7 @@ package loadbalancer
 // (C01: the proxy of a new backend is the stock single-host reverse proxy - its request rewriting is the
 // library's; Helios installs a transport and an error handler only.)
 //@ func (*LoadBalancer).AddBackend
-//@   props C11 C05 C03 C12 C01
+//@   props C11 C05 C03 C12 C01 C02
 //@   requires adminOK(lb) && namesUnique(lb) && poolNonNil(lb) && sLen(lb.strategy) < 2147483647
 //@   requires 0 <= lb.config.Server.Timeouts.BackendDial && lb.config.Server.Timeouts.BackendDial < 8589934592 && 0 <= lb.config.Server.Timeouts.BackendRead
 //@             && lb.config.Server.Timeouts.BackendRead < 8589934592 && 0 <= lb.config.Server.Timeouts.BackendIdle && lb.config.Server.Timeouts.BackendIdle < 8589934592
@@ -749,7 +749,7 @@ package loadbalancer
 //@   ensures backend_transport_neither_negotiates_nor_decodes_compression: result == nil ==> lastTransportTransparent
 //@   ensures added_is_listed_and_eligible: result == nil ==> exists b *Backend :: inPool(lb, b) && fresh(b) && b.Name == backendCfg.Name && b.IsHealthy
 //@             && b.Weight == max(1, backendCfg.Weight) && b.ActiveConnections == 0 && b.ReverseProxy != nil
-//@             && b.ReverseProxy.Director == stockDirector(ptr(b.ReverseProxy)) && b.ReverseProxy.Rewrite == nil && b.ReverseProxy.ModifyResponse == nil
+//@             && b.ReverseProxy.Director == stockDirector(ptr(b.ReverseProxy)) && b.ReverseProxy.Rewrite == nil && b.ReverseProxy.ModifyResponse == nil && b.ReverseProxy.ErrorHandler == nil
 //@   ensures existing_are_kept: forall b *Backend :: old(inPool(lb, b)) ==> inPool(lb, b)
 //@   ensures only_the_new_one_is_new: forall b *Backend :: inPool(lb, b) && !fresh(b) ==> old(inPool(lb, b))
 //@   ensures failed_add_changes_nothing: result != nil ==> forall b *Backend :: inPool(lb, b) <==> old(inPool(lb, b))
